@@ -50,10 +50,25 @@ def motion(draw):
 
 
 @st.composite
+def phrase(draw):
+    """one motion, or a find/till followed (possibly after a reposition) by its repeats ; and , - the combination in which
+    the reversed direction and the t/T fix-up interact (a seeded change there was missed by independent single motions)"""
+    if draw(st.integers(0, 4)) != 0:
+        return [draw(motion())]
+    out = [[draw(st.sampled_from("fFtT")), draw(st.sampled_from([0, 0, 2])), draw(st.sampled_from(CHARS))]]
+    if draw(st.booleans()):
+        out.append([draw(st.sampled_from(["$", "0", "w", "b", "l", "h"])), 0, None])
+    for _ in range(draw(st.integers(1, 3))):
+        out.append([draw(st.sampled_from([";", ",", ","])), draw(st.sampled_from([0, 0, 0, 2])), None])
+    return out
+
+
+@st.composite
 def case(draw):
     lines = draw(st.lists(line, max_size=12))
+    steps = [s for ph in draw(st.lists(phrase(), min_size=1, max_size=8)) for s in ph][:14]
     return {"lines": lines, "row": draw(st.integers(0, 11)), "off": draw(st.integers(0, 12)), "rows": draw(st.sampled_from([4, 5, 6, 8, 12, 30])),
-            "steps": draw(st.lists(motion(), min_size=1, max_size=12))}
+            "steps": steps}
 
 
 def strategy(tier):
